@@ -150,6 +150,8 @@ pub enum E {
     Field(Box<E>, usize),
     List(Vec<E>),
     FStr(Vec<Part>),
+    /// `l + r` on strings
+    Concat(Box<E>, Box<E>),
 }
 
 #[derive(Clone, Debug, PartialEq)]
@@ -344,6 +346,7 @@ pub fn expr(p: &Prog, e: &E, d: usize) -> String {
         E::Record(fs) => format!("R {{ a: {}, b: {} }}", expr(p, &fs[0], d), expr(p, &fs[1], d)),
         E::Field(r, i) => format!("{}.{}", operand(p, r, d), ["a", "b"][*i]),
         E::List(es) => format!("[{}]", args(p, es, d)),
+        E::Concat(l, r) => format!("{} + {}", operand(p, l, d), operand(p, r, d)),
         E::FStr(parts) => {
             let mut o = String::from("f\"");
             for pt in parts {
@@ -439,6 +442,7 @@ pub fn sx(e: &E) -> String {
         E::Record(fs) => format!("(record {})", sxs(fs)),
         E::Field(r, i) => format!("(field {} {i})", sx(r)),
         E::List(es) => format!("(list {})", sxs(es)),
+        E::Concat(l, r) => format!("(concat {} {})", sx(l), sx(r)),
         E::FStr(parts) => {
             let ps: Vec<String> = parts
                 .iter()
@@ -485,6 +489,7 @@ pub fn kind(e: &E) -> String {
         E::Field(..) => "field".into(),
         E::List(_) => "list".into(),
         E::FStr(_) => "f-string".into(),
+        E::Concat(..) => "string+".into(),
     }
 }
 
@@ -503,7 +508,7 @@ pub fn children(e: &E) -> Vec<&E> {
     match e {
         E::Int(_) | E::Bool(_) | E::Unit | E::Var(_) | E::None_ => {}
         E::Host(_, a) | E::Call(_, a) | E::Ctor(_, a) | E::Record(a) | E::List(a) => v.extend(a.iter()),
-        E::Bin(_, l, r) | E::And(l, r) | E::Or(l, r) => {
+        E::Bin(_, l, r) | E::And(l, r) | E::Or(l, r) | E::Concat(l, r) => {
             v.push(l);
             v.push(r);
         }
@@ -619,7 +624,7 @@ pub fn type_of(p: &Prog, e: &E) -> Option<T> {
         E::Record(_) => Some(T::R),
         E::Field(..) => Some(T::I),
         E::List(_) => Some(T::L),
-        E::FStr(_) => Some(T::S),
+        E::FStr(_) | E::Concat(..) => Some(T::S),
     }
 }
 
@@ -792,6 +797,10 @@ fn expr_edits(p: &Prog, e: &E, k: &mut usize) -> Option<E> {
             sub!(l, |n| E::Or(n, r.clone()));
             sub!(r, |n| E::Or(l.clone(), n));
         }
+        E::Concat(l, r) => {
+            sub!(l, |n| E::Concat(n, r.clone()));
+            sub!(r, |n| E::Concat(l.clone(), n));
+        }
         E::Not(x) => sub!(x, E::Not),
         E::Neg(x) => sub!(x, E::Neg),
         E::Assign(v, x) => sub!(x, |n| E::Assign(*v, n)),
@@ -895,7 +904,7 @@ fn renumber(e: &mut E, removed: usize) {
             a.iter_mut().for_each(|x| renumber(x, removed));
         }
         E::Host(_, a) | E::Ctor(_, a) | E::Record(a) | E::List(a) => a.iter_mut().for_each(|x| renumber(x, removed)),
-        E::Bin(_, l, r) | E::And(l, r) | E::Or(l, r) => {
+        E::Bin(_, l, r) | E::And(l, r) | E::Or(l, r) | E::Concat(l, r) => {
             renumber(l, removed);
             renumber(r, removed);
         }
